@@ -1,4 +1,5 @@
 import ActixModel.Proofs.WsCodec
+import ActixModel.Proofs.WsGrammar
 import ActixModel.Proofs.WsHandshake
 /-
 C14 — WebSocket handshake and frame codec: round trip, segmentation independence, strictness.
@@ -141,6 +142,42 @@ theorem C14_roundtrip (al al' : Nat) (keys : Nat → Mask) (senderIsServer : Boo
   let ⟨cd', h, _, _⟩ := roundtrip_seq al al' keys { server := senderIsServer } { server := !senderIsServer, maxSize := maxSize }
     0 msgs ⟨rfl, rfl⟩ hok
   ⟨cd', h⟩
+
+/-! ## the parser accepts exactly the frame grammar
+
+`Wire` / `Wire.bytes` (`Proofs/WsGrammar.lean`) write RFC 6455 §5.2 down independently of the
+parser: FIN, RSV1-3, opcode nibble | MASK, 7-bit code | 0, 2 or 8 extension bytes | key | masked
+payload; any of the three length forms that can hold the length (`Wire.Valid`). -/
+
+/-- **C14_grammar_complete**: what `parse` answers on *every* frame of the grammar followed by
+anything — whatever the RSV bits, whichever admissible length form, any key: too long for
+`max_size` ⇒ `Overflow`; Ping/Pong > 125 ⇒ `InvalidLength`; Close > 125 ⇒ bare Close (O3);
+otherwise exactly the frame's FIN, opcode and payload, leaving exactly what followed.
+(`C14_roundtrip_frame` is the special case of the frames `write_message` produces.) -/
+theorem C14_grammar_complete (al : Nat) (w : Wire) (hv : w.Valid) (rest : Bytes) (maxSize : Nat)
+    (hop : OpCode.ofByte (UInt8.ofNat w.opc) ≠ .bad) (hn : w.payload.length < 2 ^ 63) :
+    parse al (w.bytes ++ rest) w.key.isSome maxSize =
+      let op := OpCode.ofByte (UInt8.ofNat w.opc)
+      if w.payload.length > maxSize then (.err .overflow, rest)
+      else if w.payload.length = 0 then (.frame w.fin op none, rest)
+      else if (op = .ping ∨ op = .pong) ∧ w.payload.length > 125 then (.err (.invalidLength w.payload.length), rest)
+      else if op = .close ∧ w.payload.length > 125 then (.frame true .close none, rest)
+      else (.frame w.fin op (some w.payload), rest) :=
+  parse_wire al w hv rest maxSize hop hn
+
+example : (⟨true, 5, 1, some ⟨1, 2, 3, 4⟩, .ext64, [0x68, 0x69]⟩ : Wire).Valid := by
+  refine ⟨by decide, by decide, ?_⟩; simp [LenForm.fits]
+
+/-- **C14_grammar_sound**: whatever `parse` delivers was, byte for byte, a frame of the grammar
+at the head of the buffer — masked iff the receiver is a server, with one of the six defined
+opcodes, payload within `max_size` — and the rest is what followed it.  With
+`C14_grammar_complete` (which fixes the delivered FIN / opcode / payload as a function of that
+frame): the parser accepts exactly the grammar and reads each frame in exactly one way. -/
+theorem C14_grammar_sound (al : Nat) (src : Bytes) (server : Bool) (maxSize : Nat) (fin : Bool) (op : OpCode)
+    (pl : Option Bytes) (rest : Bytes) (h : parse al src server maxSize = (.frame fin op pl, rest)) :
+    ∃ w : Wire, w.Valid ∧ src = w.bytes ++ rest ∧ w.key.isSome = server ∧
+      OpCode.ofByte (UInt8.ofNat w.opc) ≠ .bad ∧ w.payload.length ≤ maxSize :=
+  parse_sound al src server maxSize fin op pl rest h
 
 /-! ## segmentation independence -/
 
